@@ -1,8 +1,8 @@
 """Per-property plan: which engines run besides the contract/lemma obligations tagged with the property."""
 
 PLAN = {
-    'C01': dict(level='proof', engines=['sumlib', 'segnative']),
-    'C02': dict(level='proof', engines=[]),
+    'C01': dict(level='proof', engines=['sumlib', 'segnative', 'tasknative']),
+    'C02': dict(level='proof', engines=['tasknative']),
     'C03': dict(level='proof', engines=['bundles']),
     'C04': dict(level='proof', engines=['keynative', 'matchnative']),
     'C05': dict(level='other', engines=['matchnative'],
@@ -10,15 +10,15 @@ PLAN = {
                             'checked by exhaustive small-scope enumeration against brute-force maximum matching (bounded stand-in, the property\'s own '
                             'quantifier: all graphs up to 4x5). Their contract "valid maximum matching of the stated predicate" is what every caller is '
                             'verified against deductively (see C01/C04/C06/C07/C08 evidence).'),
-    'C06': dict(level='proof', engines=['forward', 'segnative']),
-    'C07': dict(level='proof', engines=[]),
-    'C08': dict(level='proof', engines=['segnative']),
+    'C06': dict(level='proof', engines=['forward', 'segnative', 'tasknative']),
+    'C07': dict(level='proof', engines=['tasknative']),
+    'C08': dict(level='proof', engines=['segnative', 'tasknative', 'multipitchnative']),
     'C09': dict(level='proof', engines=['chordnative', 'keynative']),
     'C10': dict(level='proof', engines=['chordre']),
     'C11': dict(level='proof', engines=['chordnative']),
     'C12': dict(level='proof', engines=['sumlib', 'segnative', 'hiernative']),
     'C13': dict(level='proof', engines=['intervalsnative']),
-    'C14': dict(level='proof', engines=[]),
+    'C14': dict(level='proof', engines=['tasknative']),
     'C16': dict(level='proof', engines=['forward', 'segnative']),
     'C17': dict(level='proof', engines=['hiernative']),
     'C18': dict(level='proof', engines=['sumlib', 'multipitchnative', 'matchnative']),
